@@ -11,7 +11,7 @@ ASSUMPTIONS = [
     "(t_supply/t_target in {50,100,150}, heat_flow in {0,200,600}, dt_cont in {0,10}, htc in {0.5,2}, set_heat_flow(300))",
     "StreamCollection: pool of three streams with clashing names; 17-event menu (add, add with key, add_many, remove, replace, set_sort_key, +, member attribute assignment); "
     "depth 4 (quick) / 5 (thorough); states rebuilt by replaying the history on fresh objects; lock-step list reference",
-    "film coefficient 0 is outside the alphabet (no reciprocal); so is supply == target together with a zero duty (neither span nor sign: the stream has no kind)",
+    "film coefficient 0 is outside the alphabet (no reciprocal); supply == target together with a zero duty is inside it (the library makes it the zero-capacity limit of a latent cold stream)",
 ]
 
 # ------------------------------------------------------------------ Stream
@@ -35,23 +35,6 @@ def stream_build(init_i, hist):
         else:
             setattr(s, attr, v)
     return s
-
-
-def degenerate(init_i, hist) -> bool:
-    """True if the history passes through supply == target together with zero duty (tracked on the assigned primitives only)."""
-    p = dict(S_INIT[init_i][1])
-    for e in hist:
-        attr, v = S_EVENTS[e]
-        if attr == "set_heat_flow":
-            p["heat_flow"] = v
-        else:
-            p[attr] = v
-        if p["t_supply"] == p["t_target"]:
-            if p["heat_flow"] == 0.0:
-                return True
-            # the library turns supply == target into a 0.01 K span by moving the target: mirror that on the primitives
-            p["t_target"] = p["t_supply"] + (0.01 if p["heat_flow"] > 0 else -0.01)
-    return False
 
 
 def stream_key(s):
@@ -109,8 +92,6 @@ def stream_explore(tier, inst, shard, nshards):
                         if work % nshards != shard:
                             continue
                     h2 = hist + [e]
-                    if degenerate(init_i, h2):
-                        continue        # supply == target with zero duty: a stream with neither span nor duty has no kind (outside the alphabet)
                     s = stream_build(init_i, h2)
                     res.transitions += 1
                     for clause, detail, cls in stream_invariants(s):
